@@ -10,9 +10,17 @@ returned from functions, mutation of parameters) and the mixed stream.  Implemen
 semantics (`--kind c05`, ORACLE-FAIL [C05]) — copy / nested write / push / pop / reverse sequences over
 three variables, and (tag `c05scoped`) functions that mutate and read a CAPTURED array through index
 chains while functions on the call chain hold and mutate an unrelated local or parameter of the same
-name; run twice, frame vs no frame, plan vs no plan must print the same values."""
+name, and (tag `c05long`) array elements that are LONG strings — around and above the largest pool slot: 255,
+256, 257, 300, 1000 bytes — built at run time inside functions (loop concatenation, doubling + slice, join,
+replace, upper-casing, interpolation), returned, stored by push / index assignment / array literal / nested push
+/ through variables and parameters, copied with their array, followed by allocations through other names, then
+compared (`na`) with an independently obtained copy, measured and printed; run twice, frame vs no frame, plan vs
+no plan must print the same values. The typed generator carries the same shape (`do line(i, n)` idiom)."""
 import runlib
 from common import Check
+
+# corpus/run plus the hand-written C05 programs (long strings returned from functions and kept as elements)
+CORPUS_DIRS = ("C05",)
 
 
 def run(ck: Check):
@@ -24,7 +32,7 @@ def run(ck: Check):
     runlib.run_obligations(ck, ["NaijaVerif.Props.C05"])
     ck.build_driver(runlib.DRIVER_FAMILIES)
     runlib.float_selftest(ck, 1500 if ck.tier == "quick" else 20000)
-    streams = runlib.run_streams(ck, ck.tier, kinds=("corpus",))
+    streams = runlib.run_streams(ck, ck.tier, kinds=("corpus",), corpus_dirs=CORPUS_DIRS)
     n = 3000 if ck.tier == "quick" else 40000
     streams.update(runlib.run_streams(ck, ck.tier, kinds=("main",), bias="arrays", n_main=n))
     ck.seed += 7
@@ -49,6 +57,7 @@ def templates(ck, n):
     info = runlib.classify(ck, "c05tmpl", reqs, res)
     ck.extra_cov["c05_template_programs"] = info["cases"]
     ck.extra_cov["c05_scoped_template_programs"] = sum(1 for r in reqs if " tag=c05scoped " in r)
+    ck.extra_cov["c05_long_string_template_programs"] = sum(1 for r in reqs if " tag=c05long " in r)
     return {"requests": reqs, "res": res, "info": info}
 
 
@@ -70,15 +79,29 @@ def search(ck, streams):
         src = runlib.src_of(f["request"])
 
         if f["what"].startswith("[C05]"):
-            # the expected output travels in the request (exp=…): shrinking the text would lose it,
-            # so the template case is reported as generated (they are 10-20 lines)
-            ck.report_violation({"kind": "impl-vs-oracle", "family": "run", "what": f["what"][:600], "program": src,
-                                 "requests": [f["request"]], "replay_cmd": "./check C05 --replay <this file>"})
+            # the expected output travels in the request (exp=…): shrinking the text would lose it, so the
+            # template case is reported as generated; next to it a reduced program on which the real runtime
+            # still prints something else than the value-semantics reference interpreter (values pure by
+            # construction), when the reduction keeps failing
+            rep = {"kind": "impl-vs-oracle", "family": "run", "what": f["what"][:600], "program": src,
+                   "requests": [f["request"]], "replay_cmd": "./check C05 --replay <this file>"}
+
+            def differs(s):
+                _r, a, b, _fl = runlib.one_case(ck, s, guard=True)
+                return a != "rejected" and a != b
+
+            if len(src) < 20000 and differs(src):
+                small = runlib.shrink_program(ck, src, differs, budget=250)
+                req, a, b, fl = runlib.one_case(ck, small)
+                if a != b and a != "rejected":
+                    rep.update({"program": small, "generated_program": src, "requests": [req, f["request"]],
+                                "impl": a, "model": b, "oracle_fails": fl})
+            ck.report_violation(rep)
             return
 
         def still(s):
-            _r, _a, _b, fl = runlib.one_case(ck, s)
-            return bool(fl)
+            _r, a, _b, fl = runlib.one_case(ck, s, guard=True)
+            return bool(fl) or any(k in a for k in ("end=panic", "end=abort", "end=timeout"))
 
         small = runlib.shrink_program(ck, src, still)
         req, a, b, fl = runlib.one_case(ck, small)
